@@ -4,11 +4,18 @@ from vf import runner, c18
 
 CLAIMS = ['host', 'priv']
 
+# shards holding the instructions that can write privileged state (MSR/MRS, CPS/SETEND, SRS/RFE, LDM (user /
+# exception return), SUBS PC,LR / ERET): always part of the quick tier
+PRIV_SHARDS = {'A/10', 'A/12', 'A/14', 'A/16', 'A/32', 'A/36', 'A/1b', 'A/25', 'A/84', 'A/86', 'A/8d', 'A/8f', 'A/95', 'A/9d',
+               'A/99', 'T16/b6', 'T32/138', 'T32/139', 'T32/13a', 'T32/13b', 'T32/13d', 'T32/13e', 'T32/13f',
+               'T32/080', 'T32/081', 'T32/083', 'T32/098', 'T32/099', 'T32/09b'}
+SCR_SYM = {'scr': 0x31}  # SCR.NS, FW, AW symbolic
+
 
 def units(tier, seed=0):
-    us = c18.shard_units(tier, CLAIMS, mode='usr', tag='/usr', seed=seed)
+    us = c18.shard_units(tier, CLAIMS, mode='usr', tag='/usr', seed=seed, always=PRIV_SHARDS, sym_sys=SCR_SYM)
     if tier == 'thorough':
-        us += c18.shard_units('quick', CLAIMS, mode='usr', tag='/usr-ns', set_sys={'scr': 1}, seed=seed)
+        us += c18.shard_units('quick', CLAIMS, mode='usr', tag='/usr-nosec', sec=False, seed=seed, always=PRIV_SHARDS)
     return us
 
 
@@ -19,7 +26,7 @@ META = {
                    'still in User mode with A/I/F, every non-User banked register, every SPSR, ELR_hyp and EVERY '
                    'system/protection/translation register (generic snapshot of the Registers object) unchanged, or '
                    'it is in a privileged exception mode at that exception vector with SPSR.M = User.',
-    'bounds': ['as C18 (shards; windowed register lists)', 'secure state (quick); + non-secure state (thorough)',
+    'bounds': ['as C18 (shards; windowed register lists)', 'SCR.{NS,FW,AW} symbolic (secure and non-secure); quick: 72 sampled shards + the 29 shards holding the privileged-state instructions; thorough: all shards + a no-security-extension sample',
                'MPU off; unprivileged load/store variants with the MPU on are covered by C14 (privilege passed to the '
                'permission check) and the LDRT/STRT rows of C02'],
     'outside': ['multi-instruction programs as such (covered by induction: the post-state of the first disjunct is '
